@@ -216,6 +216,13 @@ class LoggingMonitor(pp.TransferMonitor):
         self.w.director.point(self.w.director.occurrence(f't{transfer_id}/pp:get_exception'), 'before')
         return super().get_exception(transfer_id)
 
+    def notify_cancel_all_in_progress(self):
+        # which downloads had been notified done when the Ctrl-C exit cancelled "all in progress"
+        done_before = sorted(tid for tid, st in self._transfer_states.items() if st.done)
+        r = super().notify_cancel_all_in_progress()
+        self.w.log.add('pp.cancel_all', done_before=done_before)
+        return r
+
 
 class PPOSUtils(HookedOSUtils):
     def allocate(self, filename, size):
@@ -480,8 +487,12 @@ def run_procpool_full(spec):
                 try:
                     with dl:
                         submit_all()
+                        for k in spec.get('kbi_after_done', ()):
+                            # Ctrl-C arrives when these downloads have finished and the others have not
+                            xfers[k].future.result()
                         ev = w.log.add('cancel.begin', how='with_kbi')
                         obs.cancel_events.append(ev)
+                        w.director.cancel_began = True
                         w.log.add('shutdown.begin')
                         raise KeyboardInterrupt()
                 except KeyboardInterrupt:
